@@ -612,8 +612,16 @@ fn exec_c12(case: &Case12, obs: &mut Obs) -> Result<(), Failure> {
                 }
                 _ => {}
             }
-            // wire form carries H and the clear attribute type
-            let enc = real_encode_avp(&AVP::Hidden(h.clone())).map_err(|e| Failure::new("C12", "hidden-wire-form", &cls, e.text()))?;
+            // wire form carries H and the clear attribute type (a value too
+            // long for an AVP cannot go on the wire: nothing to look at)
+            let enc = if h.value.len() > 1017 {
+                let mut e = vec![AVP_M | AVP_H, 6];
+                e.extend_from_slice(&[0, 0]);
+                e.extend_from_slice(&c.avp.attr.to_be_bytes());
+                e
+            } else {
+                real_encode_avp(&AVP::Hidden(h.clone())).map_err(|e| Failure::new("C12", "hidden-wire-form", &cls, e.text()))?
+            };
             if enc.len() < 6 || enc[0] & AVP_H == 0 || u16::from_be_bytes([enc[4], enc[5]]) != c.avp.attr {
                 return Err(Failure::new(
                     "C12",
@@ -769,6 +777,26 @@ impl Scenario for C12 {
                 ctx.obs.sample(|| json!(c2));
             }
             ctx.check::<C12>(&case);
+        }
+        // a hidden value of 2^16 chunks and a little more (a megabyte of
+        // length padding: nothing bounds the padding of a value that is
+        // revealed without having been on the wire)
+        if ctx.run % 400 == 11 {
+            let mut sw2 = sw.clone();
+            sw2.size = SizeRegime::Typical;
+            let attr = *wl.pick(&[7u16, 8, 11, 13, 26, 30, 33]);
+            let mut hc = gen_hide_case(&mut wl, &sw2, attr, &mut sm);
+            let pl = spec_payload(&hc.avp).len();
+            let m = if wl.chance(1, 4) { 2 } else { 1 };
+            let j = wl.urange(0, 5);
+            let total = 16 * (65_536 * m + j);
+            let short = wl.urange(0, 15).min(total - 2 - pl);
+            hc.lp = wl.bytes(total - 2 - pl - short);
+            hc.via_wire = false;
+            hc.secret.truncate(40);
+            ctx.obs.count("probe:hidden-value-of-2^16-chunks-or-more");
+            ctx.check::<C12>(&Case12::ForeignHide(hc.clone()));
+            ctx.check::<C12>(&Case12::Hide(hc));
         }
         // a call history over related secrets
         let n = wl.urange(2, 4);
